@@ -2,7 +2,7 @@ import re
 from pathlib import Path
 from typing import List, Optional, Tuple, Set
 
-from tealer.teal.instructions.instructions import Instruction, Label
+from tealer.teal.instructions.instructions import Instruction, Label, BZ, BNZ, Switch, Match
 from tealer.teal.instructions.parse_instruction import parse_line
 from tealer.teal.teal import Teal
 from tealer.utils.output import CFGDotConfig, full_cfg_to_dot
@@ -81,9 +81,13 @@ def _is_match(current_instruction: Optional[Instruction], regex: List[Instructio
             return False
         if not _is_equal(current_instruction, regex_ins):
             return False
+        # a conditional branch is a branching instruction even when it has a single successor
+        # (it is the last instruction of the contract: not taken, the program ends).
         current_instruction = (
             current_instruction.next[0]
-            if current_instruction.next and len(current_instruction.next) == 1
+            if current_instruction.next
+            and len(current_instruction.next) == 1
+            and not isinstance(current_instruction, (BZ, BNZ, Switch, Match))
             else None
         )
 
